@@ -372,8 +372,12 @@ def replay_add_emitted(o, tree):
             ops = []
             if cfg["has_path"]:
                 ops.append('"sub/out.file"')
+            tape_name = "TAPE NAME"
+            wt = (o.get("witness") or {}).get("tape")
+            if isinstance(wt, str) and len(wt) <= 16 and all(32 <= ord(c) < 127 and c not in '"\\' for c in wt):
+                tape_name = wt                      # the solver's own tape name (e.g. the empty string)
             if cfg["has_name"]:
-                ops.append('"TAPE NAME"')
+                ops.append('"%s"' % tape_name)
             open(os.path.join(wd, srcname), "w").write("%s %s\n.word 1, 2\n" % (cfg["cmd"], ", ".join(ops)))
             p = subprocess.run(["/venv/bin/python", "-c", "import sys; sys.path.insert(0, %r); sys.argv = ['pdpy11', %r]; from pdpy11._cli import main_cli; main_cli()" % (tree, srcname)],
                                cwd=wd, capture_output=True, text=True, timeout=120)
@@ -389,7 +393,7 @@ def replay_add_emitted(o, tree):
                 bad.append((srcname, "bin bytes", data.hex()))
             if fmt == "bk_wav":
                 nm = bytes(bk_tape.demodulate(data[44:])["name"])
-                exp = (b"TAPE NAME" if cfg["has_name"] else (b"out.file" if cfg["has_path"] else stem.encode())).ljust(16)
+                exp = (tape_name.encode() if cfg["has_name"] else (b"out.file" if cfg["has_path"] else stem.encode())).ljust(16)
                 if nm != exp:
                     bad.append((srcname, "tape name", nm, "expected", exp))
         return dict(jobs=None, experiment="%s with path=%s name=%s under four source-file names, through the real CLI" % (cfg["cmd"], cfg["has_path"], cfg["has_name"]), observed=bad or "as expected", reproduced=bool(bad))
